@@ -78,5 +78,6 @@ Definition run_serialize (fs : list bytes) : res (list bytes) :=
 (* serialize then parse back (the C04 round trip inside the model) *)
 Definition run_ser_parse (fs : list bytes) : res (list bytes) :=
   do v <- of_canon (field fs 0); do b <- ser v;
-  do (v', s) <- parse_ctx no_resolve None F_ANY MAX_DEPTH (mkLx 0 (b ++ field fs 1));
-  Ok [canon v'; dec_of_N (lpos s)].
+  let buf := b ++ field fs 1 in
+  do (v', s) <- parse_ctx no_resolve None F_ANY MAX_DEPTH (mkLx 0 buf);
+  Ok [canon_in buf v'; dec_of_N (lpos s); dec_of_N (lenN b); drop (lpos s) b].
